@@ -416,7 +416,9 @@ class FactoryRun:
         except HarnessCap:
             raise
         except Exception as e:
-            cause = e.__cause__ or e
+            cause = e
+            while cause.__cause__ is not None:      # simpy re-creates the exception at every process boundary
+                cause = cause.__cause__
             tb = cause.__traceback__
             where = None
             while tb is not None:
